@@ -56,7 +56,8 @@ def record(ctx, bench, rounds, tag, yield_seed, cli_share=0.5):
                 shared = dm
             try:
                 rng = random.Random(rd["seed"])
-                groups = [L.concretize(bench, s, rng, 1 + 3 * j, hostile_variant=rd.get("hostile_variant"), cli_share=cli_share)
+                groups = [L.concretize(bench, s, rng, 1 + 3 * j, hostile_variant=rd.get("hostile_variant"), cli_share=cli_share,
+                                       big=rd.get("big", False))
                           for j, s in enumerate(rd["scens"])]
                 flat, obs = L.play_round(bench, dm, groups, rng, work)
                 for cl in flat:
@@ -285,3 +286,15 @@ def validate(ctx, bench, prop, rounds, findings, stats, traces, yield_seed=0):
         validate_files(ctx, bench, prop, "hostile%d" % j, [d], mods, findings, stats, traces, allow_no_verify=True)
     if acc:
         selftest(ctx, bench, acc, rng, traces, 3 if ctx.tier == "quick" else 6)
+
+
+def replay_trace(ctx, bench, path):
+    """./check Cnn --replay <saved trace>: validate the saved event file again (module table saved next to it)"""
+    mp = path + ".mods"
+    n = max([json.loads(l).get("s", 0) for l in open(path)] + [2])
+    r, nev, at = run_tlc(ctx, bench, path, mp, n)
+    if r.violated:
+        ctx.violation("trace rejected by VmdTrace (%s) at event %s: %s" % (r.violated, at, json.dumps(first_unmatched(path, at))[:300]), path)
+        return 1
+    log("trace accepted (%d events)" % nev)
+    return 0
